@@ -26,6 +26,7 @@ def run(rep):
     rep.guard(p5, rep, w)
     rep.guard(p6, rep, w)
     rep.guard(p7, rep, w)
+    rep.guard(p11, rep, w)
     rep.guard(p8, rep, w)
     rep.guard(p9, rep, w)
     rep.guard(p10, rep, w)
@@ -681,6 +682,37 @@ def p7(rep, w):
             'optimised build writes past the stack allocation', f.loc())
 
 
+def p11(rep, w):
+    """P7 is about the value stack (a recorded finding). Any *other* use of the fixed-capacity Stack type is a new unchecked buffer:
+    in optimised builds Stack::push writes without a bounds test, so each instantiation other than the value stack needs its own
+    capacity test in front of every push."""
+    r = rep.rule('P11', 'a fixed-capacity Stack other than the value stack is only pushed to behind a capacity test', floor=0)
+    n = 0
+    for f in sorted(w.yarel.fns.values(), key=lambda x: x.path):
+        for bi, t in f.calls():
+            if strip_generics(callee_name(t) or '') != 'yarel::stack::Stack::push':
+                continue
+            tys = [f.crate.tstr(a) for a in (t['f'].get('ra') or t['f'].get('a') or [])]
+            if not tys or tys[0].endswith('value::Value') or tys[0] == 'T':
+                continue
+            n += 1
+            dom = f.dominators()
+            guarded = False
+            for b in f.normal_blocks():
+                if b not in dom.get(bi, ()) or f.blocks[b]['t']['t'] != 'switch':
+                    continue
+                for s_ in f.blocks[b]['s']:
+                    rr = s_.get('r', {})
+                    if rr.get('rv') == 'bin' and rr['op'] in ('Lt', 'Le', 'Gt', 'Ge', 'Eq', 'Ne'):
+                        sides = [origins(f).get((op_place(o) or {}).get('l'), set()) for o in (rr['a'], rr['b'])]
+                        if any(any(q[0][0] == 'call' and strip_generics(q[0][2]).endswith('::len') for q in sd) for sd in sides):
+                            guarded = True
+            r.check(guarded, '%s / push onto Stack<%s>' % (f.path.replace('yarel::', ''), tys[0]),
+                    'a Stack<%s, N> is pushed to without a test of its length against the capacity: in optimised builds Stack::push does not check, so the entry beyond the '
+                    'capacity is written past the allocation (checked builds panic)' % tys[0], f.loc(t.get('sp')))
+    r.ok('census of pushes onto non-value Stacks: %d' % n)
+
+
 def p8(rep, w):
     import locks
     r = rep.rule('P8', 'cycle guards of the recursive Display implementations are restored on every exit', floor=3)
@@ -746,21 +778,38 @@ def p9(rep, w):
         raise Broken('C02', 'floor', 'P9: only %d len()-guarded index sites found' % n)
 
 
+CURSOR_FIELDS = None
+
+
 def p10(rep, w):
     """an iterator over a collection the program can shrink between two steps (a Vec popped inside the loop over it) has to compare its
     cursor with the collection's *current* length on every step: the index handed to Index::index in an iterator's next() is
     dominated, in the same call, by a comparison of that index with a len() result"""
     r = rep.rule('P10', 'iterators over mutable collections compare their cursor with the current length before every element read', floor=1)
     n = 0
+    # the cursor fields: integer fields of the iterator types (struct names ending in Iter in object.rs)
+    global CURSOR_FIELDS
+    CURSOR_FIELDS = set()
+    for an, ad in w.yarel.adts.items():
+        if an.startswith('yarel::object::') and an.endswith('Iter') and ad.get('variants'):
+            for fd in ad['variants'][0]['fields']:
+                if w.yarel.tstr(fd['t']) in ('usize', 'isize'):
+                    CURSOR_FIELDS.add(fd['n'])
     for f in sorted(w.yarel.fns.values(), key=lambda x: x.path):
         st_ = f.crate.ty(f.raw['impl_self']).get('n', '') if f.raw.get('impl_self') is not None else ''
-        if not (f.raw.get('name') == 'next' and st_.startswith('yarel::object::') and st_.endswith('Iter')):
+        is_next = f.raw.get('name') == 'next' and st_.startswith('yarel::object::') and st_.endswith('Iter')
+        if not is_next and not f.file.endswith(('object.rs', 'core.rs')):
             continue
         # only collections a program can change while the iterator exists (held in a RefCell); a tuple's length is fixed
         if not any(strip_generics(callee_name(t) or '').endswith('RefCell::borrow') or strip_generics(callee_name(t) or '').endswith('RefCell::borrow_mut') for _, t in f.calls()):
             continue
         org = origins(f)
         dom = f.dominators()
+
+        def from_cursor(l):
+            """the index is a cursor kept in an iterator object (a field named like the cursor of one of the iterator types), not a
+            value that was validated on its way from the stack"""
+            return any(any(tk in CURSOR_FIELDS for tk in q[1:]) for q in org.get(l, ()))
         reads = []        # (block, index local, span)
         for bi, t in sorted(f.calls()):
             nm = callee_name(t) or ''
@@ -768,10 +817,19 @@ def p10(rep, w):
             if not (('Index' in nm and '::index' in nm) or unchecked):
                 continue
             tys = [f.crate.tstr(a) for a in (t['f'].get('ra') or t['f'].get('a') or [])]
-            if 'usize' not in tys and not unchecked:
-                continue
             ipl = op_place(t['args'][1])
-            reads.append((bi, ipl['l'] if ipl else None, t.get('sp')))
+            if 'usize' in tys or unchecked:
+                if is_next or (ipl and from_cursor(ipl['l'])):
+                    reads.append((bi, ipl['l'] if ipl else None, t.get('sp')))
+            elif any('ops::Range' in x for x in tys) and ipl is not None:
+                # elements[cursor..]: the endpoints of the range
+                for b2 in f.blocks:
+                    for s2 in b2['s']:
+                        if (s2.get('d') or {}).get('l') == ipl['l'] and s2['r'].get('rv') == 'agg':
+                            for o in s2['r'].get('ops', []):
+                                ep = op_place(o)
+                                if ep is not None and from_cursor(ep['l']):
+                                    reads.append((bi, ep['l'], t.get('sp')))
         for bi in sorted(f.normal_blocks()):
             for s_ in f.blocks[bi]['s']:
                 rr = s_.get('r', {})
